@@ -419,10 +419,13 @@ func (op *redirOp) exec(fm *Frame, fops *[]formOwnedPort) Exception {
 
 	dstPort := growAccess(&fm.ports, dst)
 	dstFop := growAccess(fops, dst)
-	if *dstPort != nil {
-		dstFop.close(*dstPort)
-		*dstFop = formOwnedPort{File: false, Chan: false}
-	}
+	// The port being replaced is released after the redirection has been
+	// carried out, so that it is left alone when the redirection fails or is
+	// n>&n, and handed over rather than closed when another port still uses
+	// it (after m>&n).
+	oldPort, oldFop := *dstPort, *dstFop
+	*dstFop = formOwnedPort{File: false, Chan: false}
+	defer func() { releaseReplacedPort(fm.ports, fops, oldPort, oldFop) }()
 
 	if op.srcIsFd {
 		src, err := evalForFd(fm, op.srcOp, true, "redirection source")
@@ -490,6 +493,24 @@ func (op *redirOp) exec(fm *Frame, fops *[]formOwnedPort) Exception {
 		*dstPort = fileRedirPort(op.mode, srcFile)
 	}
 	return nil
+}
+
+// Releases a port that has been replaced by a redirection. If the port is
+// still in the port table, the first entry using it keeps or takes over the
+// ownership; otherwise the parts owned by the form are closed.
+func releaseReplacedPort(ports []*Port, fops *[]formOwnedPort, old *Port, oldFop formOwnedPort) {
+	if old == nil {
+		return
+	}
+	for i, p := range ports {
+		if p == old {
+			fop := growAccess(fops, i)
+			fop.File = fop.File || oldFop.File
+			fop.Chan = fop.Chan || oldFop.Chan
+			return
+		}
+	}
+	oldFop.close(old)
 }
 
 // Creates a port that only have a file component, populating the
